@@ -705,3 +705,187 @@ func kindRetryDecision(x *Ctx, it Item) {
 	}
 	x.Printf("      DWait backoff\n    end\n  end.\n\n")
 }
+
+// rewindchain: the body-rewind logic, as a decision over four facts about the request:
+// body_nil (Body == nil), body_nobody (Body == http.NoBody), getbody_nil (GetBody == nil),
+// getbody_fails (the GetBody call returns an error) -> rw_class (Base/RetryTypes.v):
+// RcKeep (nothing to do, go on), RcFresh (Body replaced by GetBody's result, go on),
+// RcNoGetBody / RcGetBodyErr (give up before / after calling GetBody).
+//
+// args.block = "": the whole function <func> (auth.rewindRequestBody):
+//	if <cond over the facts> { return nil }           -> RcKeep
+//	if <cond> { return <error> }                      -> RcNoGetBody
+//	body, err := req.GetBody(); if err != nil { return <error> }   -> RcGetBodyErr
+//	req.Body = body; return nil                       -> RcFresh
+// args.block = "<var>": inside <func>, the statement `if <cond over the facts> { ...same chain
+// with `return ...` giving up... }` that calls <var>.GetBody() (retry.Transport.RoundTrip);
+// falling out of the block after the assignment is RcFresh, not entering it RcKeep.
+func init() { kinds["rewindchain"] = kindRewindChain }
+
+func rwFact(e ast.Expr, req string) (string, bool) {
+	switch x := e.(type) {
+	case *ast.ParenExpr:
+		return rwFact(x.X, req)
+	case *ast.UnaryExpr:
+		if x.Op == token.NOT {
+			if s, ok := rwFact(x.X, req); ok {
+				return "(negb " + s + ")", true
+			}
+		}
+	case *ast.BinaryExpr:
+		switch x.Op {
+		case token.LOR, token.LAND:
+			a, ok1 := rwFact(x.X, req)
+			b, ok2 := rwFact(x.Y, req)
+			if ok1 && ok2 {
+				op := " || "
+				if x.Op == token.LAND {
+					op = " && "
+				}
+				return "(" + a + op + b + ")", true
+			}
+		case token.EQL, token.NEQ:
+			sel, ok := x.X.(*ast.SelectorExpr)
+			if !ok || !isIdent(sel.X, req) {
+				return "", false
+			}
+			atom := ""
+			switch {
+			case sel.Sel.Name == "Body" && isIdent(x.Y, "nil"):
+				atom = "body_nil"
+			case sel.Sel.Name == "GetBody" && isIdent(x.Y, "nil"):
+				atom = "getbody_nil"
+			case sel.Sel.Name == "Body":
+				if s2, ok := x.Y.(*ast.SelectorExpr); ok && isIdent(s2.X, "http") && s2.Sel.Name == "NoBody" {
+					atom = "body_nobody"
+				}
+			}
+			if atom == "" {
+				return "", false
+			}
+			if x.Op == token.NEQ {
+				return "(negb " + atom + ")", true
+			}
+			return atom, true
+		}
+	}
+	return "", false
+}
+
+// rwChain translates a statement list; returns the Gallina expression.  tail = the class when
+// the list is left at its end.
+func rwChain(list []ast.Stmt, req, what string, wholeFunc bool) string {
+	var out strings.Builder
+	called, assigned := false, false
+	closeN := 0
+	for i, st := range list {
+		switch s := st.(type) {
+		case *ast.IfStmt:
+			if s.Init != nil || s.Else != nil || len(s.Body.List) != 1 {
+				fail("%s: unsupported if statement in the rewind chain", what)
+			}
+			ret, ok := s.Body.List[0].(*ast.ReturnStmt)
+			if !ok {
+				fail("%s: an if of the rewind chain does not return", what)
+			}
+			if called {
+				// if err != nil { give up }
+				be, ok := s.Cond.(*ast.BinaryExpr)
+				if !ok || be.Op != token.NEQ || !isIdent(be.X, "err") || !isIdent(be.Y, "nil") || assigned {
+					fail("%s: unsupported statement after the GetBody call", what)
+				}
+				out.WriteString("if getbody_fails then RcGetBodyErr else ")
+				continue
+			}
+			c, ok := rwFact(s.Cond, req)
+			if !ok {
+				fail("%s: condition of the rewind chain is not over Body/GetBody of %s", what, req)
+			}
+			cls := "RcNoGetBody"
+			if wholeFunc && len(ret.Results) == 1 && isIdent(ret.Results[0], "nil") {
+				cls = "RcKeep"
+			}
+			out.WriteString("if " + c + " then " + cls + " else ")
+		case *ast.AssignStmt:
+			if !called {
+				// body, err := req.GetBody()
+				call, ok := s.Rhs[0].(*ast.CallExpr)
+				if !ok || len(s.Lhs) != 2 || len(call.Args) != 0 {
+					fail("%s: unsupported assignment in the rewind chain", what)
+				}
+				sel, ok := call.Fun.(*ast.SelectorExpr)
+				if !ok || sel.Sel.Name != "GetBody" || !isIdent(sel.X, req) || !isIdent(s.Lhs[1], "err") {
+					fail("%s: unsupported assignment in the rewind chain", what)
+				}
+				called = true
+				continue
+			}
+			// req.Body = body
+			sel, ok := s.Lhs[0].(*ast.SelectorExpr)
+			if !ok || len(s.Lhs) != 1 || sel.Sel.Name != "Body" || !isIdent(sel.X, req) {
+				fail("%s: unsupported assignment after the GetBody call", what)
+			}
+			assigned = true
+		case *ast.ReturnStmt:
+			if !wholeFunc || i != len(list)-1 || !assigned || len(s.Results) != 1 || !isIdent(s.Results[0], "nil") {
+				fail("%s: unsupported return in the rewind chain", what)
+			}
+		default:
+			fail("%s: unsupported statement in the rewind chain", what)
+		}
+	}
+	_ = closeN
+	if !called || !assigned {
+		fail("%s: the rewind chain does not call GetBody and install its result", what)
+	}
+	out.WriteString("RcFresh")
+	return out.String()
+}
+
+func kindRewindChain(x *Ctx, it Item) {
+	what := it.File + ":" + it.Recv + "." + it.Func + " (rewind)"
+	fd := findFunc(x.File(it.File), it.Recv, it.Func)
+	if fd == nil {
+		fail("%s: function not found", what)
+	}
+	block, _ := it.Args["block"].(string)
+	var expr string
+	if block == "" {
+		if len(fd.Type.Params.List) != 1 || len(fd.Type.Params.List[0].Names) != 1 {
+			fail("%s: unexpected parameters", what)
+		}
+		expr = rwChain(fd.Body.List, fd.Type.Params.List[0].Names[0].Name, what, true)
+	} else {
+		var found *ast.IfStmt
+		ast.Inspect(fd.Body, func(n ast.Node) bool {
+			is, ok := n.(*ast.IfStmt)
+			if !ok || found != nil {
+				return true
+			}
+			calls := false
+			ast.Inspect(is.Body, func(m ast.Node) bool {
+				if c, ok := m.(*ast.CallExpr); ok {
+					if sel, ok := c.Fun.(*ast.SelectorExpr); ok && sel.Sel.Name == "GetBody" && isIdent(sel.X, block) {
+						calls = true
+					}
+				}
+				return true
+			})
+			if calls {
+				found = is
+				return false
+			}
+			return true
+		})
+		if found == nil || found.Init != nil || found.Else != nil {
+			fail("%s: no `if ... { ... %s.GetBody() ... }` block", what, block)
+		}
+		c, ok := rwFact(found.Cond, block)
+		if !ok {
+			fail("%s: the guard of the rewind block is not over Body/GetBody of %s", what, block)
+		}
+		expr = "if " + c + " then (" + rwChain(found.Body.List, block, what, false) + ") else RcKeep"
+	}
+	x.Printf("From Oras Require Import Base.RetryTypes.\n(* %s *)\n", what)
+	x.Printf("Definition %s (body_nil body_nobody getbody_nil getbody_fails : bool) : rw_class :=\n  %s.\n\n", coqName(it), expr)
+}
